@@ -41,8 +41,27 @@ def sh(cmd, cwd=None, timeout=3600, env=None, input=None):
 # --------------------------------------------------------------------------------------
 
 def gen_consts():
-    rc, out = sh([sys.executable, os.path.join(VERIF, "tools", "gen_consts.py")], timeout=120)
-    return rc == 0, out
+    """Translator.  First choice: the constants as the compiled crate has them (debug harness `--consts`, so the harness is
+    built first); what that does not provide - or everything, when the harness does not build - comes from the source text."""
+    compiled = os.path.join(CACHE, "consts_compiled.txt")
+    note = ""
+    try:
+        if os.path.exists(compiled):
+            os.remove(compiled)
+        okh, outh, exe = build_harness(release=False)
+        if okh:
+            rc, out = sh([exe, "--consts"], timeout=60)
+            if rc == 0 and "DTN_VERSION" in out:
+                os.makedirs(CACHE, exist_ok=True)
+                open(compiled, "w").write(out)
+            else:
+                note = "harness --consts failed (rc %d); constants taken from the source text\n" % rc
+        else:
+            note = "harness did not build; constants taken from the source text\n"
+    except Exception as e:  # pragma: no cover
+        note = "compiled constants unavailable (%r); constants taken from the source text\n" % (e,)
+    rc, out = sh([sys.executable, os.path.join(VERIF, "tools", "gen_consts.py"), "--compiled", compiled], timeout=120)
+    return rc == 0, note + out
 
 
 def coq_makefile():
